@@ -1,4 +1,70 @@
-"""C03 — not built yet."""
+"""C03 — the parser is total and the AST is faithful to the source text (DESIGN.md §5.3, docs/C03.md)."""
+import json, os
+from vlib import core
+
+THEOREMS = ["Props.C03." + t for t in [
+    "grammar_wf", "peg_total", "parse_total",
+    "field_ids", "field_ids_written", "field_ids_implicit", "enum_values",
+    "annotations_append", "annotations_keys_first_occurrence",
+    "literal_unescape", "literal_lexed",
+    "tree_conforms", "walker_no_panic_partial",
+    "skip_absorbs", "list_separator_optional", "layout_independent_partial",
+]]
+
+PARTIAL = [
+    "walker_no_panic_partial: see docs/C03.md for the rule list it covers; the remaining walker functions are tied by the correspondence only",
+    "layout_independent_partial: token-level lemmas (Skip absorbs every Skip-string, ListSeparator optional, quote kind); composition over whole documents is covered by the oracle only",
+    "literal_unescape: stated for contents without a backslash before a quote character or a backslash and not ending in a backslash (the excluded shapes have negative witnesses)",
+]
+
+
 def run(ctx):
-    print("C03: no check built yet")
-    return 2
+    exe = ctx.go_build("c03")
+    ctx.trusted += ["translator harness/cmd/c03 extract (reader of the pointlander/peg source syntax used by parser/thrift.peg)",
+                    "correspondence harness harness/cmd/c03 run vs tv_c03: token list and node tree of the generated parser (thrift.peg.go) and the AST of parser.ParseString, field by field",
+                    "Go's []rune(string) / string([]rune) as modelled by Utf8.decode / Utf8.encode; strconv.ParseInt as modelled by GoStrconv.parseInt; strconv.ParseFloat is a parameter (model outputs its argument text, the real strconv evaluates it)"]
+    ctx.assumptions += ["thrift.peg.go implements PEG semantics of thrift.peg (tie (b): token-for-token agreement on every generated input)",
+                        "tokens32.AST() drops exactly the empty tokens and nests by range (model: Peg.prune), tied by comparing (depth, rule, begin, end) of every node"]
+    ctx.partial += PARTIAL
+    if exe:
+        if ctx.replay:
+            rc, out = core.sh([exe, "replay", "-repo", core.REPO, "-file", ctx.replay])
+            if rc != 0:
+                raise core.MachineryError("c03 replay failed: " + out[-2000:])
+            for f in json.loads(out.strip().split("\n")[-1]):
+                ctx.add_violation(f["key"], f["what"], f["input"], f["expected"], f["observed"])
+            ctx.cov["evaluations"] = 1
+            return ctx.finish(rule="replay of one input")
+        rc, gen = core.sh([exe, "extract", "-repo", core.REPO])
+        if rc != 0:
+            ctx.obligation("translator:c03-extract(thrift.peg)", False, gen[-2000:])
+        else:
+            ctx.obligation("translator:c03-extract(thrift.peg)", True)
+            ctx.write_generated("C03Grammar", gen)
+    built = ctx.lake_build(["ThriftVerif.Props.C03"], "lake-build:Props.C03")
+    drv = ctx.lake_build(["tv_c03"], "lake-build:tv_c03")
+    if built:
+        ctx.audit("C03", THEOREMS)
+        if ctx.tier == "thorough":
+            ctx.leanchecker(["ThriftVerif.Props.C03"])
+    if exe:
+        rc, out = core.sh([exe, "run", "-repo", core.REPO, "-dir", ctx.work, "-seed", str(ctx.seed), "-tier", ctx.tier], timeout=3000)
+        if rc != 0:
+            raise core.MachineryError("c03 run failed: " + out[-2000:])
+        st = json.load(open(os.path.join(ctx.work, "stats.json")))
+        ctx.cov.update(evaluations=st["evaluations"], distinct_nontrivial=st["distinct_nontrivial"], samples=st["samples"],
+                       distribution=st["distribution"], exhaustive=False)
+        for f in (st.get("oracle_failures") or []):
+            ctx.add_violation(f["key"], f["what"], f["input"], f["expected"], f["observed"])
+        if drv:
+            ops = os.path.join(ctx.work, "ops.txt")
+            raw = ctx.run_model("tv_c03", ops)
+            fixed = os.path.join(ctx.work, "model-fixed.txt")
+            with open(raw) as fi, open(fixed, "w") as fo:
+                import subprocess
+                p = subprocess.run([exe, "fixfloat"], stdin=fi, stdout=fo, stderr=subprocess.PIPE, text=True, timeout=600)
+            if p.returncode != 0:
+                raise core.MachineryError("c03 fixfloat failed: " + p.stderr[-2000:])
+            ctx.diff_lines("c03(tokens,tree,AST)", ops, os.path.join(ctx.work, "impl.txt"), fixed)
+    return ctx.finish(rule="a rendered document with >= 3 definition kinds counts as non-trivial; raw strings, mutations and the corpus do not; "
+                           "distinct by sha256 of the VL line (the input bytes)")
